@@ -26,4 +26,4 @@ Definition run_script (a s : bool) (only : list str) (file : str)
                    length (filter (fun op => match op with OpChmod _ => true | _ => false end) (s_ops st)))
   end.
 
-Extraction "C03_model.ml" consistent consistent_hist phys_lines run_script Z.of_N Nat.add.
+Extraction "C03_model.ml" consistent consistent_hist phys_lines run_script check_executable Z.of_N Nat.add.
